@@ -202,6 +202,21 @@ CLAIMED["C10"] = dict(
     technique="Lean 4 proof (induction over cut points, permutation reasoning) + differential correspondence of the real split/join with the compiled model + direct oracles",
     design="DESIGN.md#c10",
 )
+CLAIMED["C11"] = dict(
+    engine="E-modify",
+    text="Lean theorems: the bulk edge updates that iterate over a set (update_edge over a snapshot, bulk discard) have "
+    "the same members for every ordering of the snapshot; the processing order of the requests of a block is a "
+    "sort by (offset, insertion-before-replacement, registration index), every request is processed exactly once, "
+    "and two keyings that order the requests the same way and never tie give the same processing order (sorting "
+    "is permutation invariant). Oracle: the real code rewrites the same cases in several fresh interpreter "
+    "processes with different PYTHONHASHSEED, allocation pattern (id-based hashes, set iteration order) and UUIDs; "
+    "canonical dumps must be identical, also when requests of different locations are registered in another "
+    "order; byte intervals with blocks tying on their offset are split in every process. Partial: hash-order "
+    "independence of the whole rewrite is decided by the multi-process run; modules with several sections are "
+    "excluded (gtirb_layout dependency).",
+    technique="Lean 4 proof (permutation invariance of the set-iterating folds, sort uniqueness) + multi-process differential run of the real code",
+    design="DESIGN.md#c11",
+)
 
 ALL = ["C%02d" % i for i in range(1, 21)]
 
@@ -243,7 +258,7 @@ def main():
         "engines": [
             {"name": "E-abi", "path": "lean/GtirbVerif/Model/Abi", "serves_properties": ["C16", "C17"], "kind_free_text": "abstract machine + Lean models of _allocate_patch_registers, the four prologue/epilogue generators and CallPatch; tables regenerated from abi._ABIS"},
             {"name": "E-adt", "path": "lean/GtirbVerif/Model/Adt", "serves_properties": ["C20", "C09"], "kind_free_text": "Lean models of ReferenceCache, ReturnEdgeCache, make_return_cache, BlockOrdering, OffsetMapping, IdentitySet with refinement proofs"},
-            {"name": "E-modify", "path": "lean/GtirbVerif/Model/IR", "serves_properties": ["C01", "C02", "C03", "C04", "C05", "C06", "C08", "C09"], "kind_free_text": "abstract GTIRB IR + Lean models of edit_byte_interval, split_block, are_joinable/join_blocks, remove_block, insert, delete, _cleanup_modified_blocks, the offset loop of _apply_modifications; listing specification (Spec/Listing*.lean)"},
+            {"name": "E-modify", "path": "lean/GtirbVerif/Model/IR", "serves_properties": ["C01", "C02", "C03", "C04", "C05", "C06", "C08", "C09", "C11"], "kind_free_text": "abstract GTIRB IR + Lean models of edit_byte_interval, split_block, are_joinable/join_blocks, remove_block, insert, delete, _cleanup_modified_blocks, the offset loop of _apply_modifications; listing specification (Spec/Listing*.lean)"},
             {"name": "E-intervals", "path": "lean/GtirbVerif/Model/Intervals", "serves_properties": ["C10"], "kind_free_text": "Lean model of split_byte_interval / join_byte_intervals with the round-trip theorem"},
             {"name": "E-dwarf", "path": "lean/GtirbVerif/Model/Dwarf", "serves_properties": ["C14", "C15"], "kind_free_text": "Lean model of dwarf/_encoders,_encodable,expr,cfi,cfi_eval + regenerated tables"},
         ],
